@@ -60,6 +60,13 @@ def build_object(rng, kind):
         h.set_attr_to_hypergraph_metadata(rng.choice(["name", "src", "note"]), rng.choice(["x", 3, [1, 2], {"a": None}]))
     elif r < 0.5:
         h.set_hypergraph_metadata({"custom": "only"})
+    if h.is_weighted() and rng.random() < 0.4:  # falsy weights must survive the round trip too
+        from ..observe import lib_args, key_from_lib
+        es = [e for e in h.get_edges() if len(e) > 0]
+        if es:
+            e = rng.choice(es)
+            k = key_from_lib(kind, e)
+            h.set_weight(*lib_args(kind, k), rng.choice([0, 0.0]))
     if rng.random() < 0.5:  # isolated node with metadata
         free = [n for n in cfg.labels if n not in h.get_nodes()]
         if free:
